@@ -108,7 +108,9 @@ CLAIMED.update({
         text=("Differential exploration of map_: a generated mapped function (stateless, stateful, self-scheduling, key-consuming, with a "
               "broadcast argument) over a scripted TSD key history (add/update/remove/re-add, many keys per cycle, growth over 8/16/32) is "
               "compared, per key and lifetime, with the same function run ALONE in a second engine run (one inlined copy per lifetime fed "
-              "that key's ticks); output key set, removal deltas, full value at every tick and child start/stop counts are checked."),
+              "that key's ticks); output key set, removal deltas, full value at every tick and child start/stop counts are checked. Also: a "
+              "second multiplexed dictionary whose keys come and go independently, and nested maps (map_ of map_ over a dictionary of "
+              "dictionaries) compared per outer key with the inner map_ run alone."),
         technique="property-based testing: differential (map_ vs per-key solo run of the mapped function) between engine runs",
         ref="DESIGN.md §5 C10", note=NOTE_COMMON + " One multiplexed dictionary; failure isolation per key is exercised under C15."),
     "C11": dict(
